@@ -1,7 +1,7 @@
 #!/usr/bin/env python3
-"""Runs tools/matrix.sh over seeded/* and records, in each meta.json, which rules report the change."""
-import subprocess, json, re, os
-out = subprocess.run(['/verif/tools/matrix.sh'] + sorted(__import__('glob').glob('/verif/seeded/*/patch.diff')), capture_output=True, text=True).stdout
+"""usage: tools/fill_detected.py [matrix-output]. Runs tools/matrix.sh over seeded/* (or reads its output) and records, in each meta.json, which rules report the change."""
+import subprocess, json, re, os, sys
+out = open(sys.argv[1]).read() if len(sys.argv) > 1 else subprocess.run(['/verif/tools/matrix.sh'] + sorted(__import__('glob').glob('/verif/seeded/*/patch.diff')), capture_output=True, text=True).stdout
 for line in out.splitlines():
     m = re.match(r'(/verif/seeded/[^/]+)/patch.diff => (.*)', line)
     if not m: continue
